@@ -195,12 +195,35 @@ def _np_maximum(a, b, out=None):
         r = a._ew(b, lambda x, y: sym.ite(SR.lift(x).e >= SR.lift(y).e, x, y))
         if out is not None:
             out._fn, out._memo = r._fn, {}
+            out._touch()
             return out
         return r
     if isinstance(a, (SR, SI)) or isinstance(b, (SR, SI)):
         a, b = SR.lift(a), SR.lift(b)
         return sym.ite(a.e >= b.e, a, b)
     return _np.maximum(a, b)
+
+
+def _np_binary(opname, f):
+    """np.add / subtract / multiply / divide with the out= argument: the result is written INTO `out` (every alias of it sees the new
+    contents) and `out` itself is returned"""
+    def g(a, b, out=None):
+        if isinstance(a, SymArray) or isinstance(b, SymArray):
+            r = f(a, b)
+            if out is not None:
+                if not isinstance(out, SymArray):
+                    raise Unsupported(f"np.{opname}(out=<{type(out).__name__}>)")
+                r = r._frozen() if hasattr(r, "_frozen") else r
+                out._fn, out._memo = r._fn, {}
+                out._touch()
+                from ..autoloops import Region
+                sym.ctx().ghost.setdefault("writes", []).append((out, Region(None, out.ndim, {}, {}, SR(0), [])))
+                return out
+            return r
+        if any(isinstance(x, (SR, SI, SC)) for x in (a, b)):
+            return f(a, b)
+        return getattr(_np, opname)(a, b) if out is None else getattr(_np, opname)(a, b, out=out)
+    return g
 
 
 def _np_max(a):
@@ -239,6 +262,10 @@ def _np_where(c):
     raise Unsupported("where")
 
 
+for _k, _v in dict(add=_np_binary("add", lambda a, b: a + b), subtract=_np_binary("subtract", lambda a, b: a - b),
+                   multiply=_np_binary("multiply", lambda a, b: a * b), divide=_np_binary("divide", lambda a, b: a / b),
+                   true_divide=_np_binary("true_divide", lambda a, b: a / b)).items():
+    setattr(NP, _k, staticmethod(_v))
 for _k, _v in dict(arange=_np_arange, ones=_np_ones, zeros=_np_zeros, array=_np_array, concatenate=_np_concatenate,
                    einsum=_np_einsum, isin=_np_isin, maximum=_np_maximum, max=_np_max, mean=_np_mean, clip=_np_clip,
                    zeros_like=_np_zeros_like, empty=_np_empty).items():
